@@ -171,7 +171,7 @@ def record(ops, policy_seed=0):
         if k == "wait":
             if "k1" in inbatch:
                 flush()
-            if d.cl[op["c"]]["waiting"]:
+            if d.cl[op["c"]].waiting or d.cl[op["c"]].in_wait:
                 continue
             inbatch.add("k1")
         if k == "setinfo":
@@ -179,6 +179,8 @@ def record(ops, policy_seed=0):
             j = d.wq.id2job.get(op["id"])
             if j is not None and len(j.info) >= 2:
                 continue
+        if sum(1 for o in batch if o["op"] in ("add", "setinfo", "drop", "stats", "kill")) >= 10:
+            flush()
         batch.append(op)
         executed.append(op)
     flush(drain=False)
@@ -194,7 +196,7 @@ DEFAULTS = {"finish": {"error": False}, "setinfo": {"error": False}, "wait": {"e
 def normalise(events):
     out = []
     for e in events:
-        e = dict(e)
+        e = {k: v for k, v in e.items() if k != "_seq"}
         for k, v in DEFAULTS.get(e["op"], {}).items():
             e.setdefault(k, v)
         if "post" not in e:
